@@ -160,6 +160,7 @@ func verifDeliverCount(op *FDOperator, vs [][]byte, name string, max int) {
 //verif:loop 40
 //verif:poloop 3
 //verif:potimeout 400
+//verif:also C19
 func verifHarness_C07_wake(sc int) {
 	c := verifNewConn(verifConnCfg{closeCBs: 1})
 	op := c.operator
